@@ -85,7 +85,7 @@ pub fn batches(check: &str) -> Vec<Batch> {
             };
             vec![b("dddmp-fault-free", mk(0), 3), b("dddmp-io-faults", mk(1), 2), b("dddmp-stored-byte-faults", mk(2), 1)]
         }
-        "C20" => vec![b("config-equivalence", { let mut o = GenOpts::base(&all_kinds()).emph(Order, 8).emph(Gc, 6); o }, 1)],
+        "C20" => vec![b("config-equivalence", { let mut o = GenOpts::base(&[Kind::Bdd, Kind::Bcdd, Kind::Zbdd, Kind::Tdd, Kind::MtbddI, Kind::MtbddF]).emph(Order, 8).emph(Gc, 6).emph(Quant, 6).emph(Subst, 6); o.threads = vec![1, 1, 2, 8]; o.allow_names = false; o.ample_only = true; o }, 1)],
         _ => vec![],
     }
 }
